@@ -151,8 +151,11 @@ static struct module *module_load(const char *name)
         return NULL;
     }
     func = dlsym(loading_module->handle, "module_constructor");
+    /* Hand over our own copy of the name: a module may keep the pointer,
+     * and the caller's string (say, an entry of core.modules) may be
+     * freed by the next reload. */
     if (func)
-        func(name);
+        func(mod->name);
     loading_module = prior;
     return mod;
 }
